@@ -12,6 +12,7 @@ CONSTANTS
   MaxAt = 9
   FaultKinds = {"write", "fsync", "close"}
   FdFix = FALSE
+  EmptyFix = TRUE
   GenFormats = {"xml"}
   GenComps = {"plain"}
   GenScriptLen = 0
